@@ -17,7 +17,8 @@ from props.c01 import representatives
 LEVEL = "exploration"
 RULE = ("flavour x class x (every value of each operand field against two backgrounds + all field pairs over reduced "
         "domains): parse(str(instr)) must give one instruction of the same class with equal operands; sequences of length "
-        "<=2/3 over one representative per shape: text -> subroutine -> bytes -> decoded -> printed -> parsed is stable; "
+        "<=2/3 over one representative per shape: text -> subroutine -> bytes -> decoded -> printed -> parsed is stable; per class: print / change operands in place / print again, "
+        "and parse twice / change the first result in place / parse again; "
         "distinct = distinct (flavour, mnemonic, leaves); non-trivial = some operand field non-zero")
 ASSUMPTIONS = ["operands in range; text is produced by str(instruction) exactly as the repository prints it"]
 
@@ -142,8 +143,76 @@ def shard_coexist(shard):
     return part
 
 
+def _mutate_to(instr, fresh) -> bool:
+    """change instr's operands in place to those of fresh (as the assembler and the transpiler do); False if immutable"""
+    import dataclasses
+    from netqasm.lang.operand import ArrayEntry, ArraySlice
+    try:
+        for fd in dataclasses.fields(type(instr))[3:]:
+            cur, new = getattr(instr, fd.name), getattr(fresh, fd.name)
+            if isinstance(cur, (ArrayEntry, ArraySlice)):
+                for attr in ("address", "index", "start", "stop"):
+                    if hasattr(cur, attr):
+                        setattr(cur, attr, getattr(new, attr))
+            else:
+                setattr(instr, fd.name, new)
+    except (AttributeError, TypeError):
+        return False
+    return True
+
+
+def shard_history(shard):
+    """Histories on one object / one text: (a) print, change the operands in place, print again: the second text must parse to
+    the CURRENT operands; (b) parse one text twice and change the first result in place: the second result (and a third parse)
+    must still be what the text says (no operand objects shared between parses)."""
+    from netqasm.lang.parsing.text import parse_text_subroutine
+    _, flav = shard
+    part = new_part()
+    f = codec.flavour(flav)
+    for cls in codec.live_classes(flav):
+        kinds = codec.live_operand_kinds(cls)
+        lk = codec.wiretable.leaf_kinds(kinds)
+        if not lk:
+            continue
+        lo, hi = codec.background_low(lk), codec.background_high(lk)
+        case = {"flavour": flav, "mnemonic": cls.mnemonic, "history": True}
+        part["evals"] += 2
+        part["distinct"] += 2
+        try:
+            # (a)
+            instr, fresh = codec.make_instr(cls, kinds, lo), codec.make_instr(cls, kinds, hi)
+            for observe in (str, lambda i: i.debug_str, repr):
+                observe(instr)
+            if _mutate_to(instr, fresh):
+                got = parse_text_subroutine(HEADER + str(instr) + "\n", flavour=f).instructions
+                if str(instr) != str(fresh):
+                    add_violation(part, f"stale-text-after-mutation/{flav}/{cls.mnemonic}", f"{flav} {cls.mnemonic}: after its operands were "
+                                  f"changed in place the instruction prints {str(instr)!r}, which is not its current operands "
+                                  f"({str(fresh)!r})", case)
+                elif len(got) != 1 or got[0] != fresh:
+                    add_violation(part, f"parse-depends-on-history/{flav}/{cls.mnemonic}", f"{flav} {cls.mnemonic}: {str(instr)!r} parses to "
+                                  f"{[str(g) for g in got]} after earlier parse results were changed in place", case)
+            else:
+                count(part, "operands-immutable")
+            # (b)
+            text = HEADER + str(codec.make_instr(cls, kinds, hi)) + "\n"
+            one = parse_text_subroutine(text, flavour=f).instructions
+            two = parse_text_subroutine(text, flavour=f).instructions
+            if _mutate_to(one[0], codec.make_instr(cls, kinds, lo)):
+                three = parse_text_subroutine(text, flavour=f).instructions
+                want = codec.make_instr(cls, kinds, hi)
+                if two[0] != want or three[0] != want:
+                    add_violation(part, f"parses-share-operands/{flav}/{cls.mnemonic}", f"{flav} {cls.mnemonic}: changing the result of one "
+                                  "parse in place changes the result of another parse of the same text", case,
+                                  {"text": text, "second": str(two[0]), "third": str(three[0])})
+        except Exception as exc:
+            add_violation(part, f"history-raises/{flav}/{cls.mnemonic}", f"{type(exc).__name__}: {exc}", case)
+    count(part, f"histories/{flav}")
+    return part
+
+
 def _dispatch(shard):
-    return {"instr": shard_instr, "seq": shard_seq, "coexist": shard_coexist}[shard[0]](shard)
+    return {"instr": shard_instr, "seq": shard_seq, "coexist": shard_coexist, "history": shard_history}[shard[0]](shard)
 
 
 def run(ctx):
@@ -154,8 +223,10 @@ def run(ctx):
             shards.append(("instr", flav, c.mnemonic))
         for i in range(len(representatives(flav))):
             shards.append(("seq", flav, i, maxlen))
+        shards.append(("history", flav))
     ctx.pmap(_dispatch, shards)
     for flav in FLAVOURS:
+        ctx.require(f"histories/{flav}", 1)
         ctx.require(f"class-explored/{flav}", 30)
     ctx.require("sequences", 300)
     ctx.require("negative-integers", 1)
@@ -163,7 +234,9 @@ def run(ctx):
 
 
 def replay(case, part):
-    if "construction_order" in case:
+    if case.get("history"):
+        part["violations"].extend(shard_history(("history", case["flavour"]))["violations"])
+    elif "construction_order" in case:
         part["violations"].extend(shard_coexist(("coexist",))["violations"])
     elif "sequence" in case:
         seq = [(m, [tuple(x) if isinstance(x, list) else x for x in lv]) for m, lv in case["sequence"]]
